@@ -144,3 +144,5 @@ Definition g_merge_policy (el eq : keys3) : res keys3 :=
   else if (count3 k_in el =? 0)%Z then Ok eq
   else Err "ConfigurationError:invalid equalization settings".
 
+(* request.propagate_and_optimize_mode: the modes explored on the spectrum built with baud rate br and offset off *)
+Definition g_mode_explored (mb mo msp br off sp : Q) : bool := (Qeq_bool mb br && Qeq_bool mo off && Qle_bool msp sp).
